@@ -53,6 +53,9 @@ def is_window_scanner_index(model: Model, mr, e: Esc) -> bool:
 
 
 # ------------------------------------------------------------------ dimension typing
+IS_TEXT = None      # set per function by check(): is this expression a str (as opposed to the encoded octets)?
+
+
 def dim(e: ast.expr, env: Dict[str, str]) -> str:
     """'A' absolute position in the whole filter, 'L' relative extent, 'C' constant, '?' unknown, 'ERR:<why>'"""
     if isinstance(e, ast.Constant) and isinstance(e.value, int):
@@ -60,6 +63,9 @@ def dim(e: ast.expr, env: Dict[str, str]) -> str:
     if isinstance(e, ast.Name):
         return env.get(e.id, "?")
     if isinstance(e, ast.Call) and isinstance(e.func, ast.Name) and e.func.id == "len":
+        if e.args and IS_TEXT is not None and IS_TEXT(e.args[0]):
+            # positions and extents of the scanner count octets of the encoded filter; len() of the text counts characters
+            return f"ERR:{norm(e)}: a character count of the text is used where octets of its encoded form are counted"
         return "L"
     if isinstance(e, ast.BoolOp):
         ds = {dim(v, env) for v in e.values} - {"C"}
@@ -124,6 +130,8 @@ def dim_env(fi: FuncInfo) -> Dict[str, str]:
                         env[tg.id] = "?"
                     else:
                         env[tg.id] = d
+                elif d.startswith("ERR") and "character count" in d:
+                    env[tg.id] = d
                 elif d == "C" and tg.id not in env:
                     env[tg.id] = "L" if isinstance(n.value, ast.Constant) else env.get(tg.id, "?")
             elif isinstance(tg, ast.Tuple) and isinstance(n.value, ast.Call):
@@ -178,6 +186,8 @@ def check(model: Model, run: Run) -> None:
         fi = model.functions[fq]
         if isinstance(fi.node, ast.Lambda):
             continue
+        global IS_TEXT
+        IS_TEXT = lambda x, fi=fi: mr.r.strip_opt(mr.r.type_of(x, fi)) in (("prim", "str"), ("prim", "strlike"))
         env = dim_env(fi)
         for n in walk_no_nested(fi.node):
             if not isinstance(n, ast.Call):
@@ -275,7 +285,7 @@ def validated(model: Model, mr, fi: FuncInfo, expr: ast.expr, at: ast.AST, depth
     fl = mr.flow_for(fi)
     facts = resolve_or(fl.facts_at.get(id(at), frozenset()))
     txt = norm(expr)
-    if ("T", match_text(txt)) in facts:
+    if ("T", match_text(txt)) in facts or ("NN", match_text(txt)) in facts:
         return True, "dominating successful match"
     if isinstance(expr, ast.Name) and depth < 3:
         # bound from a tuple-unpack of a helper call: every returned component must be validated in the helper
@@ -296,10 +306,10 @@ def validated(model: Model, mr, fi: FuncInfo, expr: ast.expr, at: ast.AST, depth
                 if isinstance(v, ast.Constant) and v.value is None:
                     continue
                 vt = norm(v)
-                if ("T", match_text(vt)) in bf:
+                if ("T", match_text(vt)) in bf or ("NN", match_text(vt)) in bf:
                     continue
                 if isinstance(v, ast.Call) and isinstance(v.func, ast.Attribute) and v.func.attr == "pop" and len(v.args) == 1 and isinstance(v.args[0], ast.Constant) and v.args[0].value == 0:
-                    if ("T", match_text(f"{norm(v.func.value)}[0]")) in bf:
+                    if ("T", match_text(f"{norm(v.func.value)}[0]")) in bf or ("NN", match_text(f"{norm(v.func.value)}[0]")) in bf:
                         continue
                 return False, f"`{expr.id} = {vt[:50]}` is not dominated by a successful {PATTERN}.match of that value"
             return True, "every binding validated"
